@@ -941,13 +941,13 @@ func replayOne(c *ctx, idx int) bool {
 				// continue from the directly built state so that the rest of the behaviour is not masked
 				A.free()
 				A, _ = buildDirect(chain[:t])
-			} else {
-				real, odd := A.project()
-				if d := compareProj(rep.Map(st, "st"), real); len(d) > 0 || len(odd) > 0 {
-					rep.Violation("C21:rollback-spec:"+strings.SplitN(strings.Join(d, ";"), ":", 2)[0],
-						fmt.Sprintf("step %d: after RollbackTo(%d) the real state differs from the spec's direct build: %v %v", i, t, d, odd), caseInfo(i))
-					return false
-				}
+			}
+			// (ii) the spec's state after the rollback is the direct build
+			real, odd := A.project()
+			if d := compareProj(rep.Map(st, "st"), real); len(d) > 0 || len(odd) > 0 {
+				rep.Violation("C21:rollback-spec:"+strings.SplitN(strings.Join(d, ";"), ":", 2)[0],
+					fmt.Sprintf("step %d: after RollbackTo(%d) the real state differs from the spec's direct build: %v %v", i, t, d, odd), caseInfo(i))
+				return false
 			}
 			chain = chain[:t]
 		}
